@@ -72,6 +72,8 @@ from werkzeug.utils import secure_filename, send_from_directory  # noqa: E402
 J_CORE = ["..", ".", "", "/", "a", "a/..", "a/../..", "../a", "..a", "./..", "/etc", "a/./.."]
 J_EXTRA = ["//", "\\", "C:", "~", "%2e%2e", "a\0b", "a.b", ".a", "..\\a", "a//..//..", "...", "../"]
 J_ATOMS = J_CORE + J_EXTRA
+J_HOSTILE = J_CORE + ["//", "\\", "a\0b", "../"]
+assert all(a in J_ATOMS for a in J_HOSTILE)
 # segments that only become '.' / '..' after a transformation somebody might apply *after* validation (dropping
 # NUL, stripping blanks, unquoting, folding backslash / fullwidth forms, removing a drive prefix or a '../' once)
 J_SHIELD = ["..", ".", "a", "\0..", "..\0", "\0.", ".\0.", " ..", "..\t", "\\..", "..:", "%2e%2e", "．．", "....", "C:.."]
@@ -97,8 +99,11 @@ def join_cases(tier):
     for base in J_BASES:
         for t in gen.sequences(J_ATOMS, 4 if tier == "thorough" else 3, 1):
             yield base, t
+        if tier != "thorough":      # quick: the 4-tuples over the 16 most hostile atoms (thorough has all 24)
+            for t in itertools.product(J_HOSTILE, repeat=4):
+                yield base, t
         # one multi-segment component, then pairs of shorter ones
-        for c in shield_components(4 if tier == "thorough" else 3):
+        for c in shield_components(4):
             yield base, (c,)
         two = list(shield_components(2))
         for c1 in two:
@@ -147,6 +152,9 @@ E_ATOMS = E_CORE + E_EXTRA
 E_SHIELD = ["\0.", "\0..", "..\0", ".\0", " ..", ".. ", "\t..", "\\..", "..:", "C:..", "%00..", "%252e%252e",
             "..\\secret.txt", "．．", "..／secret.txt", "....//", "..././", "%2e%00%2e"]
 E_SMALL = ["..", ".", "secret.txt", "sub", "f.txt"]
+E_HOSTILE = ["..", ".", "", "f.txt", "sub", "secret.txt", "%2e%2e", "<T>", "..%2f", "\\", "a\0b", "%2f", "rootx", "g.txt", "sub/..", "../secret.txt"]
+E_SHIELD_HOSTILE = ["\0.", "\0..", "..\0", " ..", "\\..", "%00..", "%252e%252e"]
+assert all(a in E_ATOMS for a in E_HOSTILE) and all(a in E_SHIELD for a in E_SHIELD_HOSTILE)
 SERVERS = ["send_from_directory", "sdm_dir", "sdm_root", "sdm_pkg", "send_from_directory_rel",
            "send_from_directory_pathlike", "sdm_file", "sdm_disallow", "sdm_pkg_empty", "sdm_pkg_dot",
            "sdm_pkg_slash", "sdm_dir_slash", "sdm_dir_rel"]
@@ -297,10 +305,12 @@ def e2e_paths(tier):
     """Path templates ('<T>' = absolute path of the scratch directory): every tuple joined with '/', as is and
     percent-decoded (what a server hands over when the client sent the tuple's text as the request target)."""
     T = tier == "thorough"
-    spaces = [(E_ATOMS, 4 if T else 3, None), (E_SMALL + E_SHIELD, 4 if T else 3, E_SHIELD),
-              (E_ATOMS + E_SHIELD, 2, E_SHIELD)]
-    for atoms, depth, must in spaces:
-        for t in gen.sequences(atoms, depth, 1):
+    spaces = [(E_ATOMS, 4 if T else 3, None, 1), (E_SMALL + E_SHIELD, 4 if T else 3, E_SHIELD, 1),
+              (E_ATOMS + E_SHIELD, 2, E_SHIELD, 1)]
+    if not T:
+        spaces += [(E_HOSTILE, 4, None, 4), (E_SMALL + E_SHIELD_HOSTILE, 4, E_SHIELD_HOSTILE, 4)]
+    for atoms, depth, must, lo in spaces:
+        for t in gen.sequences(atoms, depth, lo):
             if must is not None and not any(x in must for x in t):
                 continue
             p = "/".join(t)
@@ -341,6 +351,7 @@ def check_e2e(tree: Tree, server: str, template: str):
 
 S_ATOMS = [".", "/", "\\", " ", "_", "-", "a", "é", "／", "．", "\0", "‮", "\t", "․", "　"]
 S_CONTEXTS = ["{c}", "a{c}b", "{c}a", "a{c}", "{c}.a", ".{c}a"]
+S_CONTEXTS_ASTRAL = ["{c}.a", "a{c}b", "{c}", ".{c}a"]
 SWEEP_CHUNK = 0x1000
 
 
@@ -441,8 +452,7 @@ N_E2E = 192
 def units(tier):
     out = [("join", i, N_JOIN) for i in range(N_JOIN)]
     out += [("e2e", i, N_E2E) for i in range(N_E2E)]
-    top = 0x110000 if tier == "thorough" else 0x10000
-    out += [("sweep", lo, min(lo + SWEEP_CHUNK, top)) for lo in range(0, top, SWEEP_CHUNK)]
+    out += [("sweep", lo, min(lo + SWEEP_CHUNK, 0x110000)) for lo in range(0, 0x110000, SWEEP_CHUNK)]
     out += [("sstr", i, 8) for i in range(8)]
     out += [("nt", i, 4) for i in range(4)]
     out += [("slong", i, 4) for i in range(4)]
@@ -509,7 +519,8 @@ def run_unit(unit, R, tier):
             if 0xD800 <= cp <= 0xDFFF:
                 continue
             c = chr(cp)
-            for ctx in S_CONTEXTS:
+            # quick: every context for the BMP, the two most telling ones for the other planes
+            for ctx in (S_CONTEXTS if tier == "thorough" or cp < 0x10000 else S_CONTEXTS_ASTRAL):
                 s = ctx.replace("{c}", c)
                 R.ev()
                 R.count("secure_cases")
@@ -553,8 +564,7 @@ def run_unit(unit, R, tier):
                 R.violation(bad[0], {"kind": "secure-nt", "sig": bad[0], "input": s, "detail": bad[1]})
     else:
         _, idx, n = unit
-        depth = 4 if tier == "thorough" else 3
-        for s in gen.shard(gen.strings(S_ATOMS, depth), n, idx):
+        for s in gen.shard(gen.strings(S_ATOMS, 4), n, idx):
             R.ev()
             R.count("secure_cases")
             R.count("secure_strings")
@@ -587,9 +597,10 @@ def finalize(R, tier):
             or inside("/base/dir", "/base/dirx") or not inside("/", "/etc"):
         raise core.Broken("containment oracle is wrong")
     return {
-        "bound": ("join tuples <=3 over 24 atoms, shielded components <=3 segments x 6 bases x 3 argument modes; request "
-                  "paths <=3 over 22 / 23 atoms and <=2 over 40 x 3 decodings x 8 servers; secure_filename BMP x 6 "
-                  "contexts + strings <=3; nt device strings <=3") if tier == "quick" else
+        "bound": ("join tuples <=3 over 24 atoms and 4-tuples over 16, shielded components <=4 segments x 6 bases x 3 "
+                  "argument modes; request paths <=3 over 22 / 23 atoms, 4-atom paths over 16 / 12 hostile atoms, <=2 "
+                  "over 40, x 3 decodings x 13 servers; secure_filename BMP x 6 contexts + other planes x 4 contexts "
+                  "+ strings <=4 + long names; nt device strings <=3") if tier == "quick" else
                  ("join tuples <=4 over 24 atoms, shielded components <=4 segments x 6 bases x 3 argument modes; request "
                   "paths <=4 over 22 / 23 atoms and <=2 over 40 x 3 decodings x 8 servers; secure_filename all planes "
                   "x 6 contexts + strings <=4; nt device strings <=4"),
